@@ -13,6 +13,7 @@ import pulp
 
 from core import history_probe, call_timed, Result, call, parallel_map
 from gen import g1
+from corr import cli_annotator
 from corr.c01 import component_sizes, stems_of
 
 
@@ -143,6 +144,60 @@ def real_plain(case):
     return {k: o[k] for k in ("spy", "opt", "fcfs") + HISTORY_KEYS}
 
 
+def real_derived(case):
+    """'the' notation of objects that are RESULTS of derivations of an object whose own notation was computed before"""
+    seq, pairs = case
+    b = g1.mk_bpseq(seq, pairs)
+    call_timed(lambda: b.dot_bracket.structure)
+    out = []
+    for name in ("without_isolated", "without_pseudoknots"):
+        d = call(lambda: getattr(b, name)())
+        if d[0] != "ok":
+            out.append((name, None, None, ("err", d[1])))
+            continue
+        d = d[1]
+        out.append((name, "".join(e.sequence for e in d.entries), [e.pair for e in d.entries], call_timed(lambda: d.dot_bracket.structure)))
+    return out
+
+
+def derived_objects(ctx, res, inputs):
+    """a derived object (isolated pairs removed, pseudoknots removed) is a structure of its own: its notation must be
+    optimal for the pairs IT holds, whatever was computed for its parent"""
+    rng = ctx.rng
+    pool = [c for tag, c, sizes in inputs if any(x > 1 for x in sizes) and not tag.startswith("clique")]
+    pool = rng.sample(pool, min(len(pool), ctx.pick(400, 4000)))
+    outs = parallel_map(real_derived, pool)
+    reqs, idx = [], []
+    for (seq, pairs), o in zip(pool, outs):
+        for name, dseq, dpairs, r in o:
+            res.count("derived:" + name)
+            inp = {"seq": seq, "pairs": pairs, "family": "derived:" + name}
+            if r[0] == "slow":
+                continue
+            if r[0] != "ok":
+                res.fail("spec", "C02:derived:%s:raises:%s" % (name, r[1]), inp, "raised %s" % r[1])
+                continue
+            sizes = component_sizes(dpairs)
+            if sizes is None or max(sizes or [0]) > 9:
+                continue
+            reqs.append(["ss.levels", dseq, g1.pstr(dpairs), r[1]]); idx.append((inp, name, dseq, dpairs, r[1]))
+    lv = ctx.driver.ask(reqs)
+    reqs2, idx2 = [], []
+    for (inp, name, dseq, dpairs, text), l in zip(idx, lv):
+        if "-" in l.split(","):
+            res.fail("spec", "C02:derived:%s:stem-without-bracket" % name, inp, "notation %r of the derived object" % text)
+            continue
+        reqs2.append(["ss.check_levels", dseq, g1.pstr(dpairs), l or "-"]); idx2.append((inp, name, dpairs, text))
+    for (inp, name, dpairs, text), r in zip(idx2, ctx.driver.ask(reqs2)):
+        d = dict(x.split("=") for x in r.split(" "))
+        res.case(("derived", name, tuple(dpairs)), nontrivial=any(dpairs))
+        if d["proper"] != "true":
+            res.fail("spec", "C02:derived:%s:improper" % name, inp, "crossing stems of the derived object share a level in %r" % text)
+        elif int(d["score"]) != int(d["opt"]):
+            res.fail("spec", "C02:derived:%s:not-optimal" % name, inp,
+                     "the object returned by %s() holds pairs %s; its notation %r has objective %s, the optimum is %s" % (name, g1.pstr(dpairs)[:80], text, d["score"], d["opt"]))
+
+
 def build_inputs(ctx):
     rng = ctx.rng
     inputs = [("hand", c) for c in g1.handmade()] + [("corpus:" + n, c) for n, c in g1.corpus()]
@@ -267,11 +322,23 @@ def run(ctx):
     both = list(zip(inputs, outs))
     for (tag, c, sizes), o in both[::max(1, len(both) // 6)][:6]:
         res.sample({"family": tag, "seq": c[0][:40], "pairs": c[1][:40], "opt": o["opt"][1][:40] if o["opt"][0] == "ok" else o["opt"]})
+    derived_objects(ctx, res, inputs)
+    # the command-line tool as an observation point (harness/corr/cli_annotator.py)
+    cli_annotator.judge(res, "C02", cli_annotator.evaluate(ctx))
     return res
 
 
 def replay(ctx, data):
+    if cli_annotator.is_cli(data.get("input")):
+        return cli_annotator.replay_cli("C02", data["input"])
     inp = data["input"]
+    if str(inp.get("family", "")).startswith("derived:"):
+        for name, dseq, dpairs, r in real_derived((inp["seq"], inp["pairs"])):
+            print(name, "->", dseq, g1.pstr(dpairs) if dpairs else None, r)
+            if r[0] == "ok":
+                lv = ctx.driver.ask1("ss.levels", dseq, g1.pstr(dpairs), r[1])
+                print("   levels", lv, ctx.driver.ask1("ss.check_levels", dseq, g1.pstr(dpairs), lv or "-"))
+        return
     o = real((inp["seq"], inp["pairs"]))
     print("impl:", {k: v for k, v in o.items() if k != "form"})
     ps = g1.pstr(inp["pairs"])
